@@ -25,6 +25,7 @@ import (
 	"strings"
 
 	"github.com/canopy-network/canopy/lib"
+	"github.com/canopy-network/canopy/lib/crypto"
 	"verifharness/drv"
 	"verifharness/execdrv"
 	"verifharness/node"
@@ -46,6 +47,7 @@ func Run(o *drv.Out) {
 	execdrv.Guard(o, func() { corpusOversize(o) })
 	execdrv.Guard(o, func() { corpusFullBlock(o) })
 	execdrv.Guard(o, func() { corpusNonCanonical(o) })
+	execdrv.Guard(o, func() { corpusUnauthorizedThenForged(o) })
 	execdrv.Guard(o, func() { corpusCheckpointHeight(o) })
 	execdrv.Guard(o, func() { corpusLastCertVersion(o) })
 	corpusParamCache(o)
@@ -497,6 +499,71 @@ func corpusCheckpointHeight(o *drv.Out) {
 	}
 	o.Nontrivial(o.CurCase())
 	o.Sample(fmt.Sprintf("checkpoint-height: heights 1..%d proposed, validated, committed and replayed on a fresh node; the checkpoint of height 100 is the block's final hash", last))
+}
+
+// corpusUnauthorizedThenForged: one mempool, in execution (fee) order: a correctly signed transaction
+// whose signer is NOT authorised for the message (its signature is queued in the batch verifier before
+// the authorised-signer check fails), valid sends, a transaction with a forged signature, and an innocent
+// valid send after it (or nothing after it). The batch verifier's verdict must be attributed to the
+// forged transaction: it is never included, every valid one is, and the block validates, commits,
+// is served and replays. Members: forged transaction last / not last, forged ed25519 / BLS / secp256k1 /
+// Ethereum-style signature, one or two unauthorised transactions before it.
+func corpusUnauthorizedThenForged(o *drv.Out) {
+	o.Case("corpus-unauthorized-signer-then-forged-signature")
+	rng := rand.New(rand.NewSource(65))
+	net := node.NewNetwork(31, 4, nil, 16, node.Options{SchemeAccounts: 2})
+	defer net.Close()
+	c := execdrv.NewChain(o, net, rng, []int{16, 3})
+	A, B, C := c.NewNode("A", 0), c.NewNode("B", 1), c.NewNode("C", -1)
+	forgers := []crypto.PrivateKeyI{net.AcctKeys[5], net.AcctKeys[7], net.SecpKeys[0], net.EthKeys[0]} // ed25519, BLS, secp256k1, eth
+	mi := 0
+	for _, last := range []bool{false, true} {
+		for fi, fk := range forgers {
+			for _, nUnauth := range []int{1, 2} {
+				if nUnauth == 2 && fi > 0 {
+					continue
+				}
+				mi++
+				h := A.Height()
+				fee := uint64(50000)
+				next := func() uint64 { fee -= 500; return fee }
+				var txs []node.MixTx
+				for u := 0; u < nUnauth; u++ {
+					txs = append(txs, node.MixTx{Kind: "fail:unauthorized", Bytes: net.SendTxFrom(net.AcctKeys[u], node.Addr(net.AcctKeys[4]), net.FreshAddr(mi*10+u), 5, next(), h)})
+				}
+				txs = append(txs, node.MixTx{Kind: "send", Bytes: net.SendTx(net.AcctKeys[2], net.FreshAddr(mi*10+3), 1000, next(), h, ""), Expect: true})
+				forged := node.CorruptSignature(net.SendTx(fk, net.FreshAddr(mi*10+4), 7, next(), h, ""))
+				txs = append(txs, node.MixTx{Kind: "fail:badsig", Bytes: forged})
+				want := 1
+				if !last {
+					txs = append(txs, node.MixTx{Kind: "send", Bytes: net.SendTx(net.AcctKeys[6], net.FreshAddr(mi*10+5), 1000, next(), h, ""), Expect: true},
+						node.MixTx{Kind: "send", Bytes: net.SendTx(net.AcctKeys[8], net.FreshAddr(mi*10+6), 1000, next(), h, ""), Expect: true})
+					want = 3
+				}
+				ht := proposeAndCommit(c, A, txs)
+				if ht == nil {
+					return
+				}
+				blk := new(lib.Block)
+				_ = lib.Unmarshal(ht.p.Block, blk)
+				hasForged := false
+				for _, tx := range blk.Transactions {
+					hasForged = hasForged || bytes.Equal(tx, forged)
+				}
+				if hasForged || len(blk.Transactions) != want {
+					o.Fail("C11:invalid-signature-tx-included:after-unauthorized-signer",
+						fmt.Sprintf("height %d: mempool in execution order = %d transaction(s) with a valid signature of a signer not authorised for the message, a valid send, a send with a forged signature (key type %d), %d valid sends; the block has %d transactions (expected the %d valid sends), the forged one among them: %v", h, nUnauth, fi, want-1, len(blk.Transactions), want, hasForged),
+						map[string]any{"case": o.CurCase(), "height": h, "block": hex.EncodeToString(ht.p.Block), "forged_tx": hex.EncodeToString(forged)})
+					return
+				}
+				if !replicate(c, B, ht, false) || !serveAndSync(c, A, C, ht) {
+					return
+				}
+				o.Count("corpus-unauthorized-then-forged")
+				o.Nontrivial(fmt.Sprintf("%s|%d", o.CurCase(), mi))
+			}
+		}
+	}
 }
 
 // nonCanonicalTx: index of the first transaction whose bytes are not the canonical encoding (-1: none).
